@@ -1973,7 +1973,7 @@ def canon(t):
             # a filtered list is at most as long as its source: len(filter(f, X)) == len(X)  <=>  len(filter(f, X)) - len(X) >= 0
             for short, full in ((a, b), (b, a)):
                 src = _strip_seq(short[2][0])
-                if src[0] == 'filter' and aeq(_strip_seq(src[2]), _strip_seq(full[2][0])):
+                if src[0] == 'filter' and _strip_seq(src[2]) == _strip_seq(full[2][0]):
                     g = ('ge0', _mk_poly({(short,): 1, (full,): -1}))
                     return g if op == 'Eq' else canon(_negate_bool(g))
         if op in ('Eq', 'NotEq') and ((_is_len(a) and b == C(0)) or (_is_len(b) and a == C(0))):
